@@ -3,7 +3,9 @@ package main
 import (
 	"bytes"
 	"fmt"
+	"regexp"
 	"strings"
+	"sync/atomic"
 
 	"verif/engine/bind"
 	"verif/engine/ev"
@@ -25,7 +27,11 @@ func init() {
 			fmt.Sscanf(e.(string), "%x", &b)
 			evs = append(evs, b)
 		}
-		return c15Run(t, start, evs[:len(evs)-1], evs[len(evs)-1], nil)
+		spare := 0
+		if f, ok := rp["spare"].(float64); ok {
+			spare = int(f)
+		}
+		return c15RunX(t, start, spare, evs[:len(evs)-1], evs[len(evs)-1], nil)
 	}
 }
 
@@ -76,6 +82,11 @@ func c15Events(t *rm.Type, maxValid, maxTrunc int) (valid [][]byte, trunc [][]by
 // c15Run decodes the prefix events into one receiver (starting fresh or hand-dirtied), then the final
 // event into it and into a fresh receiver; if the final decode succeeds both must be equal.
 func c15Run(t *rm.Type, start *rm.Value, prefix [][]byte, final []byte, l *ev.Local) (v *ev.Violation) {
+	return c15RunX(t, start, 0, prefix, final, l)
+}
+
+// c15RunX: as c15Run; spare > 0 gives every list of the start state that many elements of spare capacity.
+func c15RunX(t *rm.Type, start *rm.Value, spare int, prefix [][]byte, final []byte, l *ev.Local) (v *ev.Violation) {
 	mk := func(kind, where, detail string) *ev.Violation {
 		var evs []string
 		for _, p := range prefix {
@@ -85,6 +96,9 @@ func c15Run(t *rm.Type, start *rm.Value, prefix [][]byte, final []byte, l *ev.Lo
 		rp := map[string]any{"op": "receiver", "type": t.QName(), "events": evs}
 		if start != nil {
 			rp["start"] = rm.ToJSON(start)
+		}
+		if spare > 0 {
+			rp["spare"] = spare
 		}
 		return &ev.Violation{Kind: kind, Subject: t.QName() + " " + where, Detail: detail, Replay: rp}
 	}
@@ -96,6 +110,9 @@ func c15Run(t *rm.Type, start *rm.Value, prefix [][]byte, final []byte, l *ev.Lo
 	var recv any
 	if start != nil {
 		recv = bind.MustReal(start)
+		if spare > 0 {
+			bind.AddSpare(recv, spare)
+		}
 	} else {
 		recv = bind.New(t)
 	}
@@ -133,7 +150,7 @@ func runC15(r *ev.Run, thorough bool) {
 	if thorough {
 		maxValid, maxTrunc, depth = 40, 30, 2
 	}
-	r.Rule = fmt.Sprintf("per type: events = up to %d valid wires (bases Z, D and every structural deviation: list lengths 0..3/255..257, every registered key, text lengths) + up to %d failing truncations at field boundaries and wires with unregistered discriminators; ALL event sequences of length <= %d decoded into ONE receiver starting from {fresh, hand-dirtied with the long variant, hand-dirtied with bodies of other registered types, key field naming one type while holding a body of another}, then every valid wire decoded into that receiver and into a fresh one; plus EVERY canonical V1 wire decoded into each hand-dirtied receiver and into receivers derived from the wire's own value (the same message; the same with every text padded out to its width / followed by a space; the same with every text one byte short); oracle: equal results; states = distinct receiver contents reached, transitions = decode events applied; distinct = (type,start,event sequence,final)", maxValid, maxTrunc, depth)
+	r.Rule = fmt.Sprintf("per type: events = up to %d valid wires (bases Z, D and every structural deviation: list lengths 0..3/255..257, every registered key, text lengths) + up to %d failing truncations at field boundaries and wires with unregistered discriminators; ALL event sequences of length <= %d decoded into ONE receiver starting from {fresh, hand-dirtied with the long variant, hand-dirtied with bodies of other registered types, key field naming one type while holding a body of another}, then every valid wire decoded into that receiver and into a fresh one; plus EVERY canonical V1 wire decoded into each hand-dirtied receiver and into receivers derived from the wire's own value (the same message; the same with every text padded out to its width / followed by a space; the same with every text one byte short); plus LADDERS: for every list / prefixed-text position, wires with that position at sizes 0..9 decoded into one receiver along 6 ladder patterns (growing, shrinking, zigzag; up to 10 decodes, checked after every step), and into receivers whose lists have 1 / 4 slots of spare capacity behind their length; oracle: equal results, no panic; states = distinct receiver contents reached, transitions = decode events applied; distinct = (type,start,event sequence,final)", maxValid, maxTrunc, depth)
 	parTypes(r, bind.Types, func(t *rm.Type, l *ev.Local) {
 		valid, trunc := c15Events(t, maxValid, maxTrunc)
 		if t.DynField() >= 0 {
@@ -248,6 +265,7 @@ func runC15(r *ev.Run, thorough bool) {
 			return true
 		})
 	})
+	c15Ladders(r, "C15")
 	r.Sample("sample.NestedPacket: start=hand-dirtied(L), events [wire(D), trunc(L)@.SubPacketList], final wire(Z): dirty == fresh")
 	r.Set("bound", map[string]any{"max_valid_events": maxValid, "max_failing_events": maxTrunc, "history_depth": depth})
 }
@@ -258,4 +276,93 @@ func bytesToStrings(bs [][]byte) []string {
 		out[i] = string(b)
 	}
 	return out
+}
+
+var ladderRe = regexp.MustCompile(`^(.*)=(n=|len |\[len |\[x, len )(\d+)`)
+
+// ladderPatterns: size sequences (indices 0..9) decoded one after the other into ONE receiver.
+var ladderPatterns = [][]int{
+	{1, 2, 3, 4, 5, 6, 7, 8, 9}, {9, 8, 7, 6, 5, 4, 3, 2, 1, 0}, {3, 1, 4, 1, 5, 9, 2, 6, 5, 3}, {0, 9, 0, 9, 1}, {8, 2, 8, 3, 8, 4}, {2, 2, 3, 3, 5, 5, 9, 9},
+}
+
+// c15Ladders: long structured receiver histories.  For every list / prefixed-text position of every type, wires in which
+// that position has size 0..9 are decoded into ONE receiver along each ladder pattern (growing, shrinking, zigzag ...;
+// up to 10 decodes), starting from a fresh receiver and from receivers whose lists have spare capacity behind their
+// length (a caller's make([]T, n, n+k), or what append's doubling leaves); after every step the result must equal the
+// decode of the same bytes into a fresh receiver, and nothing may panic.  prop selects the findings reported: C15 all,
+// C09 panics only.
+func c15Ladders(r *ev.Run, prop string) {
+	var nl, ns int64
+	parTypes(r, bind.Types, func(t *rm.Type, l *ev.Local) {
+		byPos := map[string][][]byte{}
+		var order []string
+		valenum.Enum(t, valenum.Opts{K: 1, Canonical: true, SweepText: 9, SweepList: 9}, func(c *valenum.Case) bool {
+			if c.NDev == 0 || c.Base != "D" {
+				return true
+			}
+			m := ladderRe.FindStringSubmatch(c.Desc)
+			if m == nil {
+				return true
+			}
+			w, err := rm.EncodeBytes(c.V)
+			if err != nil {
+				return true
+			}
+			k := m[1] + " " + m[2]
+			if _, ok := byPos[k]; !ok {
+				order = append(order, k)
+			}
+			byPos[k] = append(byPos[k], w)
+			return true
+		})
+		report := func(v *ev.Violation, what string) bool {
+			if v == nil || (prop == "C09" && v.Kind != "panic") {
+				return true
+			}
+			if prop == "C09" {
+				v.Kind = "decode-panic"
+			}
+			v.Detail = what + ": " + v.Detail
+			r.Violate(v)
+			return !r.TooMany()
+		}
+		for _, k := range order {
+			ws := byPos[k]
+			if len(ws) < 10 {
+				continue
+			}
+			for pi, pat := range ladderPatterns {
+				seq := make([][]byte, len(pat))
+				for i, x := range pat {
+					seq[i] = ws[x]
+				}
+				for i := 1; i < len(seq); i++ {
+					l.Eval(ev.H(fmt.Sprint(t.QName(), "ladder", k, pi, i)), true)
+					l.Traces++
+					atomic.AddInt64(&nl, 1)
+					if !report(c15Run(t, nil, seq[:i], seq[i], l), fmt.Sprintf("ladder %v of sizes at %s, step %d", pat, k, i)) {
+						return
+					}
+				}
+			}
+			// receivers whose lists carry spare capacity, then each size
+			for _, st := range []*rm.Value{valenum.Distinct(t), valenum.Long(t), rm.Zero(t)} {
+				for _, spare := range []int{1, 4} {
+					for x, w := range ws {
+						l.Eval(ev.H(fmt.Sprint(t.QName(), "spare", k, spare, x)+st.String()), true)
+						l.Traces++
+						atomic.AddInt64(&ns, 1)
+						if !report(c15RunX(t, st, spare, nil, w, l), fmt.Sprintf("receiver lists with %d spare slots, size %d at %s", spare, x, k)) {
+							return
+						}
+						if !report(c15RunX(t, st, spare, [][]byte{ws[2]}, w, l), fmt.Sprintf("receiver lists with %d spare slots, size 2 then %d at %s", spare, x, k)) {
+							return
+						}
+					}
+				}
+			}
+		}
+	})
+	r.Add("ladder_steps", nl)
+	r.Add("spare_capacity_starts", ns)
 }
